@@ -2,6 +2,7 @@ import Deb822Verif.Driver.Proto
 import Deb822Verif.Model.DebParse
 import Deb822Verif.Model.DebAccess
 import Deb822Verif.Spec.DocGrammar
+import Deb822Verif.Spec.DocSDec
 namespace Deb822Verif.Driver.Deb
 open Deb822Verif Proto Deb
 
@@ -49,12 +50,73 @@ def viewDoc (s : Str) : String :=
       | p :: _ => encItems (items p)
     s!"ok {encDoc (docItems t)} K[{";".intercalate (ps.map fun p => encList (keys p))}] L[{";".intercalate (ps.map lookups)}] pfs:{pfs}"
 
+/-! flat line list -> structured `DocS` (driver only; the theorems are about `DocS`) -/
+open Spec in
+def takeConts : List (Line × Bool) → List ContS × List (Line × Bool)
+  | (.cont i v, nl) :: ls => let r := takeConts ls; (⟨i, v, nl⟩ :: r.1, r.2)
+  | ls => ([], ls)
+
+open Spec in
+partial def takeItems : List (Line × Bool) → Option (List PItem × List (Line × Bool))
+  | [] => some ([], [])
+  | (.blank, nl) :: ls => some ([], (.blank, nl) :: ls)
+  | (.comment t, nl) :: ls => do
+    let r ← takeItems ls
+    pure (.comment t nl :: r.1, r.2)
+  | (.field k w v, nl) :: ls =>
+    let c := takeConts ls
+    do
+      let r ← takeItems c.2
+      pure (.entry ⟨k, w, v, nl, c.1⟩ :: r.1, r.2)
+  | _ => none
+
+open Spec in
+def takeGaps : List (Line × Bool) → List Gap × List (Line × Bool)
+  | (.blank, _) :: ls => let r := takeGaps ls; (Gap.blank :: r.1, r.2)
+  | (.comment t, nl) :: ls => let r := takeGaps ls; (Gap.comment t nl :: r.1, r.2)
+  | ls => ([], ls)
+
+open Spec in
+partial def takeParas : List (Line × Bool) → Option (List (ParaS × List Gap))
+  | [] => some []
+  | ls => do
+    let r ← takeItems ls
+    match r.1 with
+    | .entry e :: is =>
+      let g := takeGaps r.2
+      let ps ← takeParas g.2
+      pure ((⟨e, is⟩, g.1) :: ps)
+    | _ => none
+
+open Spec in
+def buildDoc (ls : List Line) (fnl : Bool) : Option DocS :=
+  -- an unterminated blank last line is no line at all
+  let (ls, fnl) := match ls.getLast? with
+    | some .blank => if fnl then (ls, fnl) else (ls.dropLast, true)
+    | _ => (ls, fnl)
+  let n := ls.length
+  let flagged := (ls.zip (List.range n)).map fun li => (li.1, li.2 + 1 != n || fnl)
+  let g := takeGaps flagged
+  match takeParas g.2 with
+  | some ps => some ⟨g.1, ps⟩
+  | none => none
+
+/-- is the line list a well-formed document in the sense of `Spec.DocS.WF` (the domain of the
+    C03 theorems)? Also cross-checks the two specifications (flat and structured) on it. -/
+def specVerdict (ls : List Spec.Line) (fnl : Bool) : String :=
+  match buildDoc ls fnl with
+  | none => "wf=0"
+  | some d =>
+    if decide d.WF then
+      if d.str == Spec.render ls fnl && d.content == Spec.content ls then "wf=1" else "wf=SPEC-MISMATCH"
+    else "wf=0"
+
 def handle (op : String) (args : List String) : Option String :=
   match op, args with
   | "deb.doc", [ls, fnl] => do
     let ls ← decLines ls
     let text := Spec.render ls (fnl == "1")
-    pure s!"{encStr text} {viewDoc text}"
+    pure s!"{encStr text} {viewDoc text} {specVerdict ls (fnl == "1")}"
   | "deb.view", [t] => do
     let s ← decStr t
     pure (viewDoc s)
